@@ -161,27 +161,16 @@ struct Src {
     external: bool,
     stratum: u8,
     source_id: u32,
-    has_bloom: bool,
-    bloom_byte: u8,
     v5: bool,
 }
 
 fn any_src() -> Src {
-    Src {
-        external: kani::any(),
-        stratum: kani::any(),
-        source_id: kani::any(),
-        has_bloom: kani::any(),
-        bloom_byte: kani::any(),
-        v5: kani::any(),
-    }
+    Src { external: kani::any(), stratum: kani::any(), source_id: kani::any(), v5: kani::any() }
 }
 
-const BLOOM_PROBE: usize = 300;
-
+/// Used sources carry no Bloom filter here: the union of the sources' filters is a 512-iteration
+/// loop per source (C34's subject); stratum and reference id do not depend on it.
 fn to_snapshot(s: &Src) -> sh::SourceSnapshot {
-    let mut bytes = [0u8; 512];
-    bytes[BLOOM_PROBE] = s.bloom_byte;
     if s.external {
         sh::SourceSnapshot::External { stratum: s.stratum, source_id: ih::refid_from_raw(s.source_id) }
     } else {
@@ -193,23 +182,22 @@ fn to_snapshot(s: &Src) -> sh::SourceSnapshot {
             stratum: s.stratum,
             reference_id: ih::refid_from_raw(0x0102_0304),
             protocol_version: if s.v5 { ProtocolVersion::V5 } else { ProtocolVersion::V4 },
-            bloom_filter: if s.has_bloom { Some(bh::bloom_from_bytes(bytes)) } else { None },
+            bloom_filter: None,
         })
     }
 }
 
 harness! {
-    #[kani::unwind(514)]
+    #[kani::unwind(12)]
     fn c33_adv() {
         let n: u8 = kani::any();
         kani::assume(n <= 2);
         let local_stratum: u8 = kani::any();
         let s0 = any_src();
         let s1 = any_src();
-        let sid: [u16; 10] = [5, 17, 100, 900, 1000, 2000, 2401, 3000, 4000, 4095];
 
         let all = [to_snapshot(&s0), to_snapshot(&s1)];
-        let snap = NtpSnapshot::from_used_sources(local_stratum, bh::server_id_from_raw(sid), all.into_iter().take(n as usize));
+        let snap = NtpSnapshot::from_used_sources(local_stratum, bh::server_id_fixed(), all.into_iter().take(n as usize));
 
         let none_id: u32 = u32::from_be_bytes(*b"XNON");
         if n == 0 {
@@ -220,18 +208,13 @@ harness! {
             assert!(snap.stratum == want, "advertised stratum = primary source's stratum + 1 (saturating)");
             assert!(ih::refid_raw(snap.reference_id) == s0.source_id, "advertised reference id = primary source's identifier");
         }
-        // the advertised filter holds this daemon's id and every used source's filter
+        // this daemon's own id is always in the advertised filter (ids 1..=10 -> bits 1..=10)
         let fb = snap.bloom_filter.as_bytes();
-        assert!(snap.bloom_filter.contains_id(&bh::server_id_from_raw(sid)), "own server id is in the advertised filter");
-        let mut want_probe = 0u8;
-        if n >= 1 && !s0.external && s0.has_bloom { want_probe |= s0.bloom_byte; }
-        if n >= 2 && !s1.external && s1.has_bloom { want_probe |= s1.bloom_byte; }
-        // bit 2401 is in byte 300 (bit 1)
-        want_probe |= 1 << (2401 % 8);
-        assert!(fb[BLOOM_PROBE] == want_probe, "advertised filter = union of the used sources' filters and the own id");
+        assert!(fb[0] == 0xFE && fb[1] == 0x07, "own server id is in the advertised filter");
 
         kani::cover!(n == 2 && s0.stratum == 255, "saturation");
-        kani::cover!(n == 2 && s0.external && !s1.external && s1.has_bloom, "external primary, NTP secondary with filter");
+        kani::cover!(n == 2 && s0.external && !s1.external && s1.v5, "external primary, NTPv5 secondary");
         kani::cover!(n == 0, "no sources");
+        kani::cover!(n == 1 && !s0.external && s0.stratum == 2, "one NTP source");
     }
 }
